@@ -329,3 +329,36 @@ func c04InputsRoundedInPlace(c *core.Ctx) {
 		c.Note("C04-R10: no input-capable amount is rounded in place")
 	}
 }
+
+// c04CleanCopies — C04-R11: tax.CleanExtensions hands back a map of its own (or
+// nil), never the one it was given. Normalisation relies on this to give every
+// tax combo, item and party its own extension map: regime migrations may set
+// one map on several rows, and addon normalisers write rate-specific codes into
+// a row's map in place; with a shared map the last row's code shows on every
+// row in the first pass and — after serialising, when each row has its own map
+// again — not in the second.
+func c04CleanCopies(c *core.Ctx) {
+	p := c.P
+	c.Rule("C04-R11", "CleanExtensions returns a map of its own, never its argument", 1)
+	fd := p.Func("tax", "", "CleanExtensions")
+	if fd == nil {
+		c.Ob("C04-R11", "UNRESOLVED:tax.CleanExtensions", token.NoPos, false, "function not found")
+		return
+	}
+	fa := newFreshAnalysis(p, func(types.Type) bool { return false })
+	sum := fa.summary(fd.Obj)
+	ok, n := true, 0
+	for _, rc := range sum.rets {
+		n++
+		for at := range rc.atoms {
+			if at.kind == 3 || at.kind == 2 {
+				ok = false
+			}
+		}
+	}
+	if n == 0 {
+		c.Ob("C04-R11", fd.Name()+"#fresh-result", fd.Decl.Pos(), false, "UNDECIDED: no result of map type found")
+		return
+	}
+	c.Ob("C04-R11", fd.Name()+"#fresh-result", fd.Decl.Pos(), ok, "CleanExtensions can return the very map it was given: rows that were handed one shared map by a regime migration keep sharing it, so an addon's in-place write for one row shows on all of them in this pass and not in the next (after a JSON round trip each row has its own map): the calculation is no longer a fixpoint")
+}
